@@ -10,8 +10,24 @@ EDGE = [('edge:only-function-definitions', 'function f(a) -> a + 1; function g()
         ('edge:ends-with-function', 'print("a\\n"); function f() -> 1'), ('edge:null-only', 'null'), ('edge:begin-end', 'begin end')]
 
 
+def _limit_programs():
+    """valid programs at the documented format limits (arity is one byte, indices are 16 bits)"""
+    ps = ', '.join('p%d' % i for i in range(255))
+    args = ', '.join(str(i) for i in range(255))
+    P = [('limit:function-255-parameters', 'function f(%s) -> p0 + p254 * 2; print("~\\n", f(%s))' % (ps, args)),
+         ('limit:method-254-parameters', 'let o = object begin let k = 1; function m(%s) -> this.k + p0 + p253 end; print("~\\n", o.m(%s))' % (', '.join('p%d' % i for i in range(254)), ', '.join(str(i) for i in range(254)))),
+         ('limit:print-255-arguments', 'print("%s\\n", %s)' % (' '.join(['~'] * 255), args)),
+         ('limit:object-300-fields', 'let o = object begin %s end; print("~ ~\\n", o.f0, o.f299)' % '; '.join('let f%d = %d' % (i, i) for i in range(300))),
+         ('limit:function-300-locals', 'function f(a) -> begin %s; v0 + v299 + a end; print("~\\n", f(1))' % '; '.join('let v%d = %d' % (i, i) for i in range(300))),
+         ('limit:top-level-block-300-locals', 'begin %s; print("~\\n", v0 + v299) end' % '; '.join('let v%d = %d' % (i, i) for i in range(300))),
+         ('limit:300-globals', '; '.join('let g%d = %d' % (i, i) for i in range(300)) + '; print("~\\n", g0 + g299)'),
+         ('limit:300-functions', '; '.join('function f%d() -> %d' % (i, i) for i in range(300)) + '; print("~\\n", f0() + f299())'),
+         ('limit:300-conditionals', 'let t = 0; ' + '; '.join('if t == %d then t <- t + 1 else t <- t + 2' % i for i in range(300)) + '; print("~\\n", t)')]
+    return P
+
+
 def corpus():
-    return [{'name': 'corpus:' + n, 'text': t, 'ast': None} for n, t in corpus_sources()] + [{'name': n, 'text': t, 'ast': None} for n, t in EDGE]
+    return [{'name': 'corpus:' + n, 'text': t, 'ast': None} for n, t in corpus_sources()] + [{'name': n, 'text': t, 'ast': None} for n, t in EDGE + _limit_programs()]
 
 
 def random_programs(n, base_seed=None, size=30, fault_rate=0.03, tag='gen'):
